@@ -1,5 +1,7 @@
 package main
 
+import "strings"
+
 func init() {
 	register(&Property{
 		ID:    "C09",
@@ -97,6 +99,9 @@ func (c *Ctx) hwmFamily(prefix string) {
 	c.OnlyIn(prefix+"/setters", set, []string{pat("litefs.(*Store).streamBackupDB"), pat("litefs.(*Store).streamBackupDBSnapshot"), pat("litefs.(*Store).monitorLeaseAsReplica")}, 3,
 		"SetHWM is called only by the two backup upload paths and the replica's HWM frame handler", "")
 	c.OnlyIn(prefix+"/field", p.Writes("litefs.DB.hwm"), []string{pat("litefs.(*DB).SetHWM")}, 1, "DB.hwm is written only by SetHWM", "")
+	c.OnlyGuards(prefix+"/set-unconditional", "litefs.(*DB).SetHWM", p.Writes("litefs.DB.hwm"), nil, 1, "SetHWM stores the mark under no condition (it follows the service down as well as up)", "a mark that only moves forward stays above what a rolled-back or replaced service acknowledges: retention then deletes files the service never received")
+	c.ExpectAll(prefix+"/set-stores-argument", c.CallArgs("litefs.(*DB).SetHWM", p.Writes("litefs.DB.hwm"), 1), pat("p1"), 1, "the value stored is the argument", "")
+	c.Expect(prefix+"/get-reads-field", strings.Join(c.returnsOf("litefs.(*DB).HWM"), ";"), pat("sync/atomic.(*Uint64).Load(&p0.hwm)"), "HWM() returns the stored mark", "")
 	for _, f := range []string{"litefs.(*Store).streamBackupDB", "litefs.(*Store).streamBackupDBSnapshot"} {
 		short := f[len("litefs.(*Store)."):]
 		c.ExpectAll(prefix+"/"+short+"/origin", c.CallArgs(f, set, 1), pat("litefs.BackupClient.WriteTx(p0.BackupClient, @@)#0"), 1, "the mark set is the value returned by BackupClient.WriteTx", "the published high-water mark never exceeds what the service has acknowledged")
